@@ -290,4 +290,524 @@ theorem lineTokens_string (n : Nat) (cs : List Char) (hq : '"' ∉ cs) (more : L
   simp only [unabbreviate_of_not_key ha, hne, ht, hlen, hu]
   simp [replaceEscapedQuotes_id cs hq]
 
+/-! ## Comments and composition of `lineTokens` -/
+
+theorem lineTokens_hash (n : Nat) (rest : List (List Char)) : lineTokens n (['#'] :: rest) = [] := by
+  rfl
+
+/-- the only match that cuts a line is `#` itself -/
+theorem unabbreviate_eq_hash (m : List Char) :
+    unabbreviate (String.ofList m) = "#" ↔ m = ['#'] := by
+  constructor
+  · intro h
+    by_cases hk : String.ofList m ∈ LexTables.abbreviations.map (·.1)
+    · exfalso
+      have : ∀ k ∈ LexTables.abbreviations.map (·.1), unabbreviate k ≠ "#" := by decide +kernel
+      exact this _ hk h
+    · rw [unabbreviate_of_not_key hk] at h
+      have := congrArg String.toList h
+      simpa using this
+  · rintro rfl; rfl
+
+theorem lineTokens_cut (n : Nat) (xs ys : List (List Char)) (m : List Char)
+    (hm : unabbreviate (String.ofList m) = "#") :
+    lineTokens n (xs ++ m :: ys) = lineTokens n xs := by
+  induction xs with
+  | nil => simp [lineTokens, hm]
+  | cons x xs ih =>
+    simp only [List.cons_append, lineTokens]
+    split
+    · rfl
+    · split <;> rw [ih]
+
+
+/-- without a `#` match in `xs`, the tokens of `xs ++ ys` are those of `xs` then those of `ys`,
+one token per match -/
+theorem lineTokens_append (n : Nat) (xs ys : List (List Char)) (h : ['#'] ∉ xs) :
+    lineTokens n (xs ++ ys) = lineTokens n xs ++ lineTokens n ys ∧
+    (lineTokens n xs).length = xs.length := by
+  induction xs with
+  | nil => simp [lineTokens]
+  | cons x xs ih =>
+    simp only [List.mem_cons, not_or] at h
+    have hx : (unabbreviate (String.ofList x) == "#") = false := by
+      rw [beq_eq_false_iff_ne]
+      intro e
+      exact h.1 ((unabbreviate_eq_hash x).mp e).symm
+    obtain ⟨ih1, ih2⟩ := ih h.2
+    simp only [List.cons_append, lineTokens, hx, ih1, Bool.false_eq_true, if_false]
+    split <;> simp [ih2]
+
+/-! ## In front of white space every scanner sees only what precedes it; matches stay inside the text -/
+
+open TP
+
+/-! ### the time pattern in front of white space -/
+
+theorem hourAlts_append_ws (x y : List T) :
+    hourAlts (x ++ T.ws :: y) = (hourAlts x).map fun p => (p.1, p.2 ++ T.ws :: y) := by
+  match x with
+  | [] => simp [hourAlts]
+  | [t] => cases t <;> simp [hourAlts]
+  | t :: u :: x' => cases t <;> cases u <;> simp [hourAlts]
+
+theorem minAlts_append_ws (x y : List T) :
+    minAlts (x ++ T.ws :: y) = (minAlts x).map fun p => (p.1, p.2 ++ T.ws :: y) := by
+  match x with
+  | [] => simp [minAlts]
+  | [t] => cases t <;> simp [minAlts]
+  | t :: u :: x' => cases t <;> cases u <;> simp [minAlts]
+
+theorem lookOk_append_ws (x y : List T) : lookOk (x ++ T.ws :: y) = lookOk x := by
+  match x with
+  | [] => rfl
+  | t :: x' => cases t <;> rfl
+
+theorem regexMatch_append_ws (x y : List T) : regexMatch (x ++ T.ws :: y) = regexMatch x := by
+  unfold regexMatch
+  rw [hourAlts_append_ws, List.findSome?_map]
+  congr 1
+  funext ⟨h, r⟩
+  simp only [Function.comp]
+  match r with
+  | [] => rfl
+  | t :: r' =>
+    cases t <;> simp only [List.cons_append]
+    rw [minAlts_append_ws, List.findSome?_map]
+    congr 1
+    funext ⟨m, rest⟩
+    simp only [Function.comp, lookOk_append_ws]
+
+
+theorem scanTimePattern_append_ws (a r : List Char) {w : Char} (hw : isWs w = true) :
+    scanTimePattern (a ++ w :: r) = scanTimePattern a := by
+  simp only [scanTimePattern, List.map_append, List.map_cons, tag_ws hw, regexMatch_append_ws]
+
+theorem isWs_ne {w : Char} (hw : isWs w = true) :
+    w ≠ '=' ∧ w ≠ '<' ∧ w ≠ '>' ∧ w ≠ '!' ∧ w ≠ '"' ∧ w ≠ '.' ∧ w ≠ '#' ∧
+    "[](){}+-*<>/%#:^".toList.contains w = false := by
+  have := isWs_nat.mp hw
+  simp [char_eq_iff w]
+  omega
+
+theorem scanCmp_fst (c d : Char) (t : List Char) (hd : d ≠ '=') :
+    scanCmp (c :: d :: t) = scanCmp [c] := by
+  by_cases h1 : c = '='
+  · subst h1; simp [scanCmp, hd]
+  by_cases h2 : c = '<'
+  · subst h2; simp [scanCmp, hd]
+  by_cases h3 : c = '>'
+  · subst h3; simp [scanCmp, hd]
+  by_cases h4 : c = '!'
+  · subst h4; simp [scanCmp, hd]
+  rw [scanCmp_none _ ⟨h1, h2, h3, h4⟩, scanCmp_none _ ⟨h1, h2, h3, h4⟩]
+
+theorem scanCmp_snd_eq (c : Char) (t : List Char) :
+    scanCmp (c :: '=' :: t) = scanCmp [c, '='] := by
+  by_cases h1 : c = '='
+  · subst h1; simp [scanCmp]
+  by_cases h2 : c = '<'
+  · subst h2; simp [scanCmp]
+  by_cases h3 : c = '>'
+  · subst h3; simp [scanCmp]
+  by_cases h4 : c = '!'
+  · subst h4; simp [scanCmp]
+  rw [scanCmp_none _ ⟨h1, h2, h3, h4⟩, scanCmp_none _ ⟨h1, h2, h3, h4⟩]
+
+theorem scanCmp_append_ws (a r : List Char) {w : Char} (hw : isWs w = true) :
+    scanCmp (a ++ w :: r) = scanCmp a := by
+  obtain ⟨h1, h2, h3, h4, -⟩ := isWs_ne hw
+  match a with
+  | [] => simp [scanCmp_none r ⟨h1, h2, h3, h4⟩]; rfl
+  | [c] => exact scanCmp_fst c w r h1
+  | c :: d :: a' =>
+    simp only [List.cons_append]
+    by_cases hd : d = '='
+    · subst hd; rw [scanCmp_snd_eq, scanCmp_snd_eq c a']
+    · rw [scanCmp_fst _ _ _ hd, scanCmp_fst _ _ _ hd]
+
+
+theorem scanNonAlnum_other {c : Char} (t : List Char) (h : c ≠ '=' ∧ c ≠ '<' ∧ c ≠ '>') :
+    scanNonAlnum (c :: t) = if "[](){}+-*<>/%#:^".toList.contains c then some 1 else none := by
+  obtain ⟨h1, h2, h3⟩ := h
+  unfold scanNonAlnum
+  split <;> simp_all
+
+theorem scanNonAlnum_fst (c d : Char) (t : List Char) (hd : d ≠ '=') :
+    scanNonAlnum (c :: d :: t) = scanNonAlnum [c] := by
+  by_cases h1 : c = '='
+  · subst h1; simp [scanNonAlnum, hd]
+  by_cases h2 : c = '<'
+  · subst h2; simp [scanNonAlnum, hd]
+  by_cases h3 : c = '>'
+  · subst h3; simp [scanNonAlnum, hd]
+  rw [scanNonAlnum_other _ ⟨h1, h2, h3⟩, scanNonAlnum_other _ ⟨h1, h2, h3⟩]
+
+theorem scanNonAlnum_snd_eq (c : Char) (t : List Char) :
+    scanNonAlnum (c :: '=' :: t) = scanNonAlnum [c, '='] := by
+  by_cases h1 : c = '='
+  · subst h1; simp [scanNonAlnum]
+  by_cases h2 : c = '<'
+  · subst h2; simp [scanNonAlnum]
+  by_cases h3 : c = '>'
+  · subst h3; simp [scanNonAlnum]
+  rw [scanNonAlnum_other _ ⟨h1, h2, h3⟩, scanNonAlnum_other _ ⟨h1, h2, h3⟩]
+
+theorem scanNonAlnum_append_ws (a r : List Char) {w : Char} (hw : isWs w = true) :
+    scanNonAlnum (a ++ w :: r) = scanNonAlnum a := by
+  obtain ⟨h1, h2, h3, h4, h5, h6, h7, h8⟩ := isWs_ne hw
+  match a with
+  | [] => simp [scanNonAlnum_none r ⟨h1, h2, h3⟩ h8]; rfl
+  | [c] => exact scanNonAlnum_fst c w r h1
+  | c :: d :: a' =>
+    simp only [List.cons_append]
+    by_cases hd : d = '='
+    · subst hd; rw [scanNonAlnum_snd_eq, scanNonAlnum_snd_eq c a']
+    · rw [scanNonAlnum_fst _ _ _ hd, scanNonAlnum_fst _ _ _ hd]
+
+theorem takeWhile_append_stop {α} (p : α → Bool) (a r : List α) {w : α} (hw : p w = false) :
+    (a ++ w :: r).takeWhile p = a.takeWhile p := by
+  induction a with
+  | nil => simp [List.takeWhile, hw]
+  | cons x a ih => simp only [List.cons_append, List.takeWhile]; split <;> simp [ih]
+
+theorem scanName_append_ws (a r : List Char) {w : Char} (hw : isWs w = true) :
+    scanName (a ++ w :: r) = scanName a := by
+  match a with
+  | [] => simp [scanName, isWs_not_nameStart hw]
+  | c :: a' =>
+    have : isNameChar w = false := by simp [isNameChar, isWs_not_nameStart hw, isWs_not_digit hw]
+    simp only [List.cons_append, scanName, takeWhile_append_stop _ _ _ this]
+
+theorem scanDefault_append_ws (a r : List Char) {w : Char} (hw : isWs w = true) :
+    scanDefault (a ++ w :: r) = scanDefault a := by
+  have h : (fun c => !isWs c) w = false := by simp [hw]
+  simp only [scanDefault, takeWhile_append_stop (fun c => !isWs c) a r h]
+
+theorem scanString_append_ws (a r : List Char) {w : Char} (hw : isWs w = true) (ha : '"' ∉ a) :
+    scanString (a ++ w :: r) = scanString a := by
+  obtain ⟨h1, h2, h3, h4, h5, -⟩ := isWs_ne hw
+  match a with
+  | [] => simp [scanString_none r h5]; rfl
+  | c :: a' =>
+    simp only [List.mem_cons, not_or] at ha
+    rw [List.cons_append, scanString_none _ (Ne.symm ha.1), scanString_none _ (Ne.symm ha.1)]
+
+
+/-- `scanNumber` in terms of the digit prefix and what follows it -/
+def numberTail (d1 : Nat) : List Char → Option Nat
+  | '.' :: rest =>
+    let d2 := (rest.takeWhile isDigit).length
+    if d2 > 0 then some (d1 + 1 + d2) else if d1 > 0 then some d1 else none
+  | _ => if d1 > 0 then some d1 else none
+
+theorem scanNumber_eq (s : List Char) :
+    scanNumber s = numberTail (s.takeWhile isDigit).length (s.drop (s.takeWhile isDigit).length) := by
+  unfold scanNumber numberTail
+  rfl
+
+theorem numberTail_append_ws (d1 : Nat) (t r : List Char) {w : Char} (hw : isWs w = true) :
+    numberTail d1 (t ++ w :: r) = numberTail d1 t := by
+  obtain ⟨h1, h2, h3, h4, h5, h6, -⟩ := isWs_ne hw
+  match t with
+  | [] =>
+    simp only [List.nil_append]
+    unfold numberTail
+    split <;> simp_all
+  | x :: t' =>
+    by_cases hx : x = '.'
+    · subst hx
+      simp only [List.cons_append, numberTail, takeWhile_append_stop _ _ _ (isWs_not_digit hw)]
+    · simp only [List.cons_append]
+      unfold numberTail
+      split <;> simp_all
+
+theorem takeWhile_length_le {α} (p : α → Bool) (l : List α) : (l.takeWhile p).length ≤ l.length := by
+  induction l with
+  | nil => simp
+  | cons a l ih => simp only [List.takeWhile]; split <;> simp <;> omega
+
+theorem scanNumber_append_ws (a r : List Char) {w : Char} (hw : isWs w = true) :
+    scanNumber (a ++ w :: r) = scanNumber a := by
+  rw [scanNumber_eq, scanNumber_eq, takeWhile_append_stop _ _ _ (isWs_not_digit hw),
+    List.drop_append_of_le_length (takeWhile_length_le _ _), numberTail_append_ws _ _ _ hw]
+
+/-- in front of white space every alternative sees only what precedes the white space -/
+theorem scanAt_append_ws (a r : List Char) {w : Char} (hw : isWs w = true) (ha : '"' ∉ a) :
+    scanAt (a ++ w :: r) = scanAt a := by
+  simp only [scanAt, scanTimePattern_append_ws _ _ hw, scanCmp_append_ws _ _ hw,
+    scanString_append_ws _ _ hw ha, scanNumber_append_ws _ _ hw, scanName_append_ws _ _ hw,
+    scanNonAlnum_append_ws _ _ hw, scanDefault_append_ws _ _ hw]
+
+open TP in
+theorem hourAlts_length {s : List T} {h : List PC} {r : List T} (hm : (h, r) ∈ hourAlts s) :
+    s.length = h.length + r.length := by
+  unfold hourAlts at hm
+  simp only [List.mem_append] at hm
+  rcases hm with (((hm | hm) | hm) | hm) | hm <;> split at hm <;> simp at hm <;>
+    obtain ⟨rfl, rfl⟩ := hm <;> simp <;> omega
+
+open TP in
+theorem minAlts_length {s : List T} {h : List PC} {r : List T} (hm : (h, r) ∈ minAlts s) :
+    s.length = h.length + r.length := by
+  unfold minAlts at hm
+  simp only [List.mem_append] at hm
+  rcases hm with ((hm | hm) | hm) | hm <;> split at hm <;> simp at hm <;>
+    obtain ⟨rfl, rfl⟩ := hm <;> simp <;> omega
+
+open TP in
+theorem regexMatch_length {s : List T} {h m : List PC} (hm : regexMatch s = some (h, m)) :
+    h.length + 1 + m.length ≤ s.length := by
+  unfold regexMatch at hm
+  obtain ⟨⟨h', r⟩, hmem, hf⟩ := List.exists_of_findSome?_eq_some hm
+  have hl := hourAlts_length hmem
+  match r, hf with
+  | .colon :: r', hf =>
+    simp only at hf
+    obtain ⟨⟨m', rest⟩, hmem2, hf2⟩ := List.exists_of_findSome?_eq_some hf
+    have hl2 := minAlts_length hmem2
+    simp only at hf2
+    split at hf2
+    · simp only [Option.some.injEq, Prod.mk.injEq] at hf2
+      obtain ⟨rfl, rfl⟩ := hf2
+      simp only [List.length_cons] at hl
+      omega
+    · cases hf2
+
+theorem scanTimePattern_le {a : List Char} {n : Nat} (h : scanTimePattern a = some n) :
+    n ≤ a.length := by
+  simp only [scanTimePattern, Option.map_eq_some_iff] at h
+  obtain ⟨⟨hh, mm⟩, hm, rfl⟩ := h
+  have := regexMatch_length hm
+  simpa using this
+
+theorem scanCmp_le {a : List Char} {n : Nat} (h : scanCmp a = some n) : n ≤ a.length := by
+  unfold scanCmp at h
+  split at h <;> simp_all <;> omega
+
+theorem scanNonAlnum_le {a : List Char} {n : Nat} (h : scanNonAlnum a = some n) : n ≤ a.length := by
+  unfold scanNonAlnum at h
+  split at h <;> simp_all <;> omega
+
+theorem scanName_le {a : List Char} {n : Nat} (h : scanName a = some n) : n ≤ a.length := by
+  unfold scanName at h
+  split at h
+  · split at h
+    · have := takeWhile_length_le isNameChar ‹List Char›
+      simp at h; simp; omega
+    · cases h
+  · cases h
+
+theorem scanDefault_le {a : List Char} {n : Nat} (h : scanDefault a = some n) : n ≤ a.length := by
+  unfold scanDefault at h
+  simp only at h
+  split at h
+  · have := takeWhile_length_le (fun c => !isWs c) a
+    simp at h; omega
+  · cases h
+
+theorem numberTail_le {d1 n : Nat} {t : List Char} (h : numberTail d1 t = some n) :
+    n ≤ d1 + t.length := by
+  unfold numberTail at h
+  split at h
+  · have := takeWhile_length_le isDigit ‹List Char›
+    simp only at h
+    split at h
+    · simp at h; simp; omega
+    · split at h <;> simp at h; omega
+  · split at h <;> simp at h; omega
+
+theorem scanNumber_le {a : List Char} {n : Nat} (h : scanNumber a = some n) : n ≤ a.length := by
+  rw [scanNumber_eq] at h
+  have := numberTail_le h
+  have h2 := takeWhile_length_le isDigit a
+  simp only [List.length_drop] at this
+  omega
+
+
+theorem scanStringBody_le {prev : Char} {s : List Char} {n : Nat}
+    (h : scanStringBody prev s = some n) : n ≤ s.length := by
+  induction s generalizing prev n with
+  | nil => cases h
+  | cons c s ih =>
+    by_cases hc : c = '"'
+    · subst hc
+      simp only [scanStringBody] at h
+      split at h
+      · split at h
+        · rename_i k hk
+          have := ih hk
+          simp at h; simp; omega
+        · simp at h; simp; omega
+      · simp at h; simp; omega
+    · rw [scanStringBody.eq_3 _ _ _ hc] at h
+      simp only [Option.map_eq_some_iff] at h
+      obtain ⟨k, hk, rfl⟩ := h
+      have := ih hk
+      simp; omega
+
+theorem scanString_le {a : List Char} {n : Nat} (h : scanString a = some n) : n ≤ a.length := by
+  unfold scanString at h
+  split at h
+  · simp only [Option.map_eq_some_iff] at h
+    obtain ⟨k, hk, rfl⟩ := h
+    have := scanStringBody_le hk
+    simp; omega
+  · cases h
+
+/-- a match never extends past the end of the text -/
+theorem scanAt_le {a : List Char} {n : Nat} (h : scanAt a = some n) : n ≤ a.length := by
+  unfold scanAt at h
+  cases h1 : scanTimePattern a with
+  | some k => rw [h1] at h; cases h; exact scanTimePattern_le h1
+  | none =>
+  rw [h1] at h
+  cases h2 : scanCmp a with
+  | some k => rw [h2] at h; cases h; exact scanCmp_le h2
+  | none =>
+  rw [h2] at h
+  cases h3 : scanString a with
+  | some k => rw [h3] at h; cases h; exact scanString_le h3
+  | none =>
+  rw [h3] at h
+  cases h4 : scanNumber a with
+  | some k => rw [h4] at h; cases h; exact scanNumber_le h4
+  | none =>
+  rw [h4] at h
+  cases h5 : scanName a with
+  | some k => rw [h5] at h; cases h; exact scanName_le h5
+  | none =>
+  rw [h5] at h
+  cases h6 : scanNonAlnum a with
+  | some k => rw [h6] at h; cases h; exact scanNonAlnum_le h6
+  | none =>
+  rw [h6] at h
+  exact scanDefault_le h
+
+/-! ## `splitLine`: fuel, leading white space, splitting at white space -/
+
+/-- any fuel ≥ the length of the text gives the same matches -/
+theorem splitLine_fuel (f g : Nat) (s : List Char) (hf : s.length ≤ f) (hg : s.length ≤ g) :
+    splitLine f s = splitLine g s := by
+  induction f generalizing g s with
+  | zero =>
+    have : s = [] := List.eq_nil_of_length_eq_zero (by omega)
+    subst this; rw [splitLine_nil, splitLine_nil]
+  | succ f ih =>
+    match s, g with
+    | [], g => rw [splitLine_nil, splitLine_nil]
+    | c :: rest, 0 => simp at hg
+    | c :: rest, g + 1 =>
+      simp only [List.length_cons] at hf hg
+      simp only [splitLine]
+      cases h : scanAt (c :: rest) with
+      | none => exact ih g rest (by omega) (by omega)
+      | some n =>
+        simp only
+        split
+        · exact ih g rest (by omega) (by omega)
+        · rename_i hn
+          have hl : ((c :: rest).drop n).length ≤ rest.length := by
+            simp only [List.length_drop, List.length_cons]; omega
+          rw [ih g _ (by omega) (by omega)]
+
+/-- leading white space is skipped -/
+theorem splitLine_ws (f : Nat) (w : Char) (s : List Char) (hw : isWs w = true) :
+    splitLine (f + 1) (w :: s) = splitLine f s := by
+  have h : scanAt (w :: s) = none := by
+    have := scanAt_append_ws [] s hw (by simp)
+    rw [List.nil_append] at this
+    rw [this]; decide
+  simp [splitLine, h]
+
+theorem splitLine_ws_list (f : Nat) (ws s : List Char) (hws : ws.all isWs = true) :
+    splitLine (f + ws.length) (ws ++ s) = splitLine f s := by
+  induction ws with
+  | nil => rfl
+  | cons w ws ih =>
+    simp only [List.all_cons, Bool.and_eq_true] at hws
+    rw [List.length_cons, ← Nat.add_assoc, List.cons_append, splitLine_ws _ _ _ hws.1, ih hws.2]
+
+
+/-- the matches of `a ++ ws ++ b` are the matches of `a` followed by the matches of `b`, for
+non-empty white space `ws` and `a` free of double quotes -/
+theorem splitLine_append_ws (f : Nat) (a ws b : List Char) (ha : '"' ∉ a) (hne : ws ≠ [])
+    (hws : ws.all isWs = true) (hf : (a ++ ws ++ b).length ≤ f) :
+    splitLine f (a ++ ws ++ b) = splitLine a.length a ++ splitLine b.length b := by
+  induction f generalizing a with
+  | zero =>
+    exfalso
+    cases ws with
+    | nil => exact hne rfl
+    | cons w ws => simp at hf
+  | succ f ih =>
+    match a with
+    | [] =>
+      simp only [List.nil_append, List.length_nil, splitLine_nil, List.length_append] at hf ⊢
+      have : f + 1 = (f + 1 - ws.length) + ws.length := by omega
+      rw [this, splitLine_ws_list _ _ _ hws]
+      exact splitLine_fuel _ _ _ (by omega) (Nat.le_refl _)
+    | c :: a' =>
+      obtain ⟨w, ws', rfl⟩ : ∃ w ws', ws = w :: ws' := by
+        cases ws with
+        | nil => exact absurd rfl hne
+        | cons w ws' => exact ⟨w, ws', rfl⟩
+      simp only [List.all_cons, Bool.and_eq_true] at hws
+      have hsc : scanAt (c :: (a' ++ (w :: ws') ++ b)) = scanAt (c :: a') := by
+        have := scanAt_append_ws (c :: a') (ws' ++ b) hws.1 ha
+        simpa using this
+      have ha' : '"' ∉ a' := fun h => ha (List.mem_cons_of_mem _ h)
+      have hf' : (a' ++ (w :: ws') ++ b).length ≤ f := by
+        simp only [List.length_append, List.length_cons] at hf ⊢; omega
+      have hall : (w :: ws').all isWs = true := by simp [hws.1, hws.2]
+      simp only [List.cons_append, List.length_cons]
+      rw [splitLine, splitLine, hsc]
+      cases h : scanAt (c :: a') with
+      | none => exact ih a' ha' hf'
+      | some n =>
+        simp only
+        split
+        · exact ih a' ha' hf'
+        · rename_i hn
+          have hle := scanAt_le h
+          have e1 : (c :: (a' ++ w :: ws' ++ b)).take n = (c :: a').take n := by
+            have : c :: (a' ++ w :: ws' ++ b) = (c :: a') ++ (w :: ws' ++ b) := by simp
+            rw [this, List.take_append_of_le_length hle]
+          have e2 : (c :: (a' ++ w :: ws' ++ b)).drop n = (c :: a').drop n ++ (w :: ws') ++ b := by
+            have : c :: (a' ++ w :: ws' ++ b) = (c :: a') ++ (w :: ws' ++ b) := by simp
+            rw [this, List.drop_append_of_le_length hle]; simp
+          have hd : '"' ∉ (c :: a').drop n := fun hm => ha (List.mem_of_mem_drop hm)
+          have hdl : ((c :: a').drop n).length ≤ a'.length := by
+            simp only [List.length_drop, List.length_cons]; omega
+          rw [e1, e2, ih _ hd (by
+            simp only [List.length_append, List.length_cons] at hf ⊢; omega)]
+          rw [splitLine_fuel a'.length ((c :: a').drop n).length _ hdl (Nat.le_refl _)]
+          simp
+
+theorem scanAt_hash (b : List Char) : scanAt ('#' :: b) = some 1 := by
+  have h1 : scanTimePattern ('#' :: b) = none := scanTimePattern_of_tag_other b (by decide)
+  have h2 : scanCmp ('#' :: b) = none := scanCmp_none b (by decide)
+  have h3 : scanString ('#' :: b) = none := scanString_none b (by decide)
+  have h4 : scanNumber ('#' :: b) = none := scanNumber_none b (by decide) (by decide)
+  have h5 : scanName ('#' :: b) = none := by simp [scanName]; decide
+  have h6 : scanNonAlnum ('#' :: b) = some 1 := by
+    rw [scanNonAlnum_other b (by decide)]; decide
+  simp [scanAt, h1, h2, h3, h4, h5, h6]
+
+theorem splitLine_hash (f : Nat) (b : List Char) :
+    splitLine (f + 1) ('#' :: b) = ['#'] :: splitLine f b := by
+  simp [splitLine, scanAt_hash]
+
+/-- the line number is only copied into the tokens -/
+theorem lineTokens_line (n m : Nat) (xs : List (List Char)) :
+    (lineTokens n xs).map (fun t => (t.type, t.content))
+      = (lineTokens m xs).map (fun t => (t.type, t.content)) := by
+  induction xs with
+  | nil => rfl
+  | cons x xs ih =>
+    simp only [lineTokens]
+    split
+    · rfl
+    · split <;> simp [ih]
+
 end Bardolph.Lex
